@@ -310,7 +310,10 @@ def row_addressing(facts, res):
             accs = [g for g in facts.functions if g["name"] == acc and tbf.body(g) is not None and not g.get("inst") and not g["params"]]
             acc_ok = bool(accs) and all(re.search(r"returnleadingDim/(static_cast<\w*>\()?sizeof\(", facts.ntext(tbf.body(g)).replace(" ", "").replace("longint", "long")) for g in accs)
             if not acc_ok:
-                raise AnalysisBroken("%s: row stride `%s()` is not an accessor returning the viewer's leading dimension in elements" % (facts.loc(r["node"]), acc))
+                res.violation(R, f, fn["qname"], "hand-made-stride@%d" % r["node"]["l"][1], r["node"]["l"][1],
+                              "the pointer of row `%s` is formed from row 0 and `%s()` rows apart: that accessor is not the viewer's leading dimension in elements (leadingDim / sizeof(value)), so the stride differs from the one getItem() uses whenever the row length is not already a multiple of the alignment - the constructor wrote value (p, v) at getItem(p, v), the kernels read row v somewhere else"
+                              % (facts.ntext(r["slot"]), acc))
+                continue
             if bv is None or sv.get("did") is None or bv.get("did") != sv.get("did"):
                 res.violation(R, f, fn["qname"], "foreign-stride@%d" % r["node"]["l"][1], r["node"]["l"][1],
                               "the pointer of row `%s` is formed from row 0 of the block viewed by `%s` and the row length of ANOTHER viewer, `%s`: every block has its own leading dimension (rows x value size, rounded up to the alignment) - for the block sizes where the two differ the rows 1.. read are not the rows the kernels wrote through getItem()"
